@@ -126,7 +126,8 @@ def run_native(tests, scratch, repo, log, label='native', kind='native', threads
         return res
     env = dict(os.environ, CARGO_NET_OFFLINE='true', CARGO_TARGET_DIR=os.path.join(CACHE, 'native-target'))
     os.makedirs(CACHE, exist_ok=True)
-    cmd = ['cargo', 'test', '--offline', modname, '--', '--test-threads', str(threads)]
+    # only the named tests (libtest takes several filters after `--`)
+    cmd = ['cargo', 'test', '--offline', '--'] + ['%s::%s' % (modname, t) for t in tests] + ['--test-threads', str(threads)]
     res['cmd'] = ' '.join(cmd)
     with _CacheLock('native-target'):
         rc, out = _run(cmd, d, env, 3600)
